@@ -1,3 +1,4 @@
+import math
 from typing import cast
 
 import yaml
@@ -82,7 +83,10 @@ class TreeToOperation(Transformer):
 
     def time(self, time_signed_number) -> float:
         (time_string,) = time_signed_number
-        return float(time_string)
+        time = float(time_string)
+        if not math.isfinite(time):
+            raise ValueError(f"time is out of range: {time_string}")
+        return time
 
     def WS(self, white_space: Token):
         return Discard
